@@ -90,7 +90,8 @@ fn plan(prop: &str) -> Vec<(Eng, u64, u64)> {
     match prop {
         "C02" => vec![(Eng::E1U, 200_000, 6_000_000)],
         "C18" => vec![(Eng::E1J, 200_000, 6_000_000)],
-        "C01" | "C03" | "C07" | "C17" => vec![(Eng::E1U, 120_000, 3_000_000), (Eng::E1J, 120_000, 3_000_000)],
+        "C01" | "C03" | "C07" => vec![(Eng::E1U, 120_000, 3_000_000), (Eng::E1J, 120_000, 3_000_000)],
+        "C17" => vec![(Eng::E1U, 50_000, 1_500_000), (Eng::E1J, 40_000, 1_000_000)],
         "C04" | "C05" | "C06" | "C09" | "C10" | "C11" | "C12" => vec![(Eng::E3, 150_000, 5_000_000)],
         "C20" => vec![(Eng::E2U, 100_000, 3_000_000), (Eng::E2J, 60_000, 2_000_000)],
         "C16" => vec![(Eng::E4, 60_000, 1_000_000)],
@@ -152,6 +153,7 @@ fn main() {
         "replay" => cmd_replay(&args),
         "determinism" => cmd_determinism(&args),
         "worker" => cmd_worker(&args),
+        "trace" => cmd_trace(&args),
         other => {
             out!("unknown command {other}");
             std::process::exit(2);
@@ -183,6 +185,27 @@ fn cmd_worker(args: &[String]) {
     let idx: usize = args[7].parse().unwrap_or(0);
     let n: usize = args[8].parse().unwrap_or(1);
     with_engine!(eng, e => runner::worker_main(e, &params, idx, n, &args[10]));
+}
+
+/// sim trace <engine> <run index> [--seed N] [--focus P]: print the event log of one generated run
+fn cmd_trace(args: &[String]) {
+    let Some(eng) = args.get(2).and_then(|s| Eng::from_name(s)) else {
+        out!("usage: sim trace <engine> <index>");
+        std::process::exit(2);
+    };
+    let idx: u64 = args.get(3).and_then(|s| s.parse().ok()).unwrap_or(0);
+    let base: u64 = arg_val(args, "--seed").and_then(|s| s.parse().ok()).unwrap_or(1);
+    let focus = arg_val(args, "--focus").unwrap_or_else(|| "ALL".to_string());
+    with_engine!(eng, e => {
+        let s = rng::mix(base, e.name(), idx);
+        let (_case, ctx) = e.generate(s, &focus, Tier::Quick, true);
+        if let Some(t) = &ctx.log.text {
+            for l in t.lines() {
+                out!("{l}");
+            }
+        }
+        out!("hash {:016x} violation {:?}", ctx.log.hash(), ctx.violation);
+    });
 }
 
 fn cmd_replay(args: &[String]) {
